@@ -64,6 +64,9 @@ class DSDLDefinition(ReadableDSDLFile):
         """
         if valid_dsdl_roots is None:
             raise ValueError("valid_dsdl_roots was None")
+        if not dsdl_path.name:
+            # An empty path, ".", or the root of the file system: there is no file name to begin with.
+            raise PathInferenceError(f"{str(dsdl_path)!r} is not a path to a file", dsdl_path, valid_dsdl_roots)
 
         # INFERENCE 1: The easiest inference is when the target path is relative to the current working directory and
         # the root is a direct child folder. In this case we allow targets to be specified as simple, relative paths
